@@ -40,19 +40,61 @@ def build_harness():
         log(r.stdout[-4000:])
         raise ToolError("cargo build of harness failed")
     log("harness built in %.1fs" % (time.time() - t))
+    # spec/KeyOrder.tla states the BIP67 order of the universe's keys: re-check it against the real keys
+    ko = json.loads(subprocess.run([BIN, "keyorder"], stdout=subprocess.PIPE, text=True, check=True).stdout)
+    txt = open(os.path.join(SPEC, "KeyOrder.tla")).read().replace(" ", "")
+    for name, ids in (("OrderC", ko["c"]), ("OrderX", ko["x"])):
+        if "%s==<<%s>>" % (name, ",".join(str(x) for x in ids)) not in txt:
+            raise ToolError("spec/KeyOrder.tla %s does not match the harness universe" % name)
 
 
-def run_harness(cmd, cases, out, extra=(), timeout=3600, env_extra=None):
+def run_harness(cmd, cases, out, extra=(), timeout=3600, env_extra=None, par=12):
+    """run `msverif <cmd>` over the cases; large case files are split into contiguous chunks that run
+    in parallel (cases are independent of each other) and the outputs are concatenated in order"""
     t = time.time()
     env = dict(os.environ)
     if env_extra:
         env.update(env_extra)
-    r = subprocess.run([BIN, cmd, cases, out] + list(extra), stdout=subprocess.PIPE, stderr=subprocess.PIPE,
-                       text=True, timeout=timeout, env=env)
-    if r.returncode != 0:
-        log(r.stderr[-3000:])
-        raise ToolError("harness %s failed rc=%d" % (cmd, r.returncode))
-    log("harness %s: %s (%.1fs)" % (cmd, r.stderr.strip().splitlines()[-1] if r.stderr.strip() else "", time.time() - t))
+    with open(cases) as f:
+        lines = f.readlines()
+    k = 1 if len(lines) < 64 else min(par, max(1, len(lines) // 32))
+    if k == 1:
+        r = subprocess.run([BIN, cmd, cases, out] + list(extra), stdout=subprocess.PIPE, stderr=subprocess.PIPE,
+                           text=True, timeout=timeout, env=env)
+        if r.returncode != 0:
+            log(r.stderr[-3000:])
+            raise ToolError("harness %s failed rc=%d" % (cmd, r.returncode))
+        log("harness %s: %s (%.1fs)" % (cmd, r.stderr.strip().splitlines()[-1] if r.stderr.strip() else "", time.time() - t))
+        return
+    size = (len(lines) + k - 1) // k
+    procs = []
+    for q in range(k):
+        part = lines[q * size:(q + 1) * size]
+        if not part:
+            continue
+        cin, cout = "%s.part%d" % (cases, q), "%s.part%d" % (out, q)
+        with open(cin, "w") as f:
+            f.writelines(part)
+        procs.append((cin, cout, subprocess.Popen([BIN, cmd, cin, cout] + list(extra), stdout=subprocess.PIPE, stderr=subprocess.PIPE, text=True, env=env)))
+    n_events = 0
+    with open(out, "w") as fo:
+        for cin, cout, pr in procs:
+            try:
+                _, err = pr.communicate(timeout=timeout)
+            except subprocess.TimeoutExpired:
+                for _, _, p2 in procs:
+                    p2.kill()
+                raise ToolError("harness %s timed out" % cmd)
+            if pr.returncode != 0:
+                log(err[-3000:])
+                raise ToolError("harness %s failed rc=%d" % (cmd, pr.returncode))
+            with open(cout) as fi:
+                for ln in fi:
+                    fo.write(ln)
+                    n_events += 1
+            os.remove(cin)
+            os.remove(cout)
+    log("harness %s: msverif %s: %d cases -> %d events in %d parallel chunks (%.1fs)" % (cmd, cmd, len(lines), n_events, len(procs), time.time() - t))
 
 
 class TlcResult:
@@ -166,6 +208,43 @@ def tlc(wd, module, cfg, env=None, workers=8, heap="8g", timeout=3600, extra=(),
     if r.returncode == 124:
         raise ToolError("TLC timed out on %s" % module)
     return res
+
+
+_SPEC_HASH = None
+
+
+def spec_hash():
+    global _SPEC_HASH
+    if _SPEC_HASH is None:
+        h = hashlib.sha1()
+        for f in sorted(os.listdir(SPEC)):
+            if f.endswith(".tla"):
+                h.update(f.encode())
+                h.update(open(os.path.join(SPEC, f), "rb").read())
+        _SPEC_HASH = h.hexdigest()
+    return _SPEC_HASH
+
+
+def gen_cached(wd, name, extends, defs, cfg_lines, out, heap="8g", timeout=3000):
+    """run a generator module (pure function of the specification and its configuration) or reuse
+    its cached output; returns a TlcResult carrying the GEN line"""
+    key = hashlib.sha1(("\n".join([spec_hash(), extends] + list(defs) + list(cfg_lines))).encode()).hexdigest()
+    cdir = os.path.join(VERIF, "work", "gencache")
+    os.makedirs(cdir, exist_ok=True)
+    cdata, cout = os.path.join(cdir, key + ".ndjson"), os.path.join(cdir, key + ".out")
+    write_module(wd, name, extends, defs, cfg_lines)
+    if os.path.exists(cdata) and os.path.exists(cout) and not os.environ.get("VERIF_NO_GENCACHE"):
+        shutil.copy(cdata, out)
+        return TlcResult(open(cout).read(), 0, 0.0)
+    r = tlc(wd, name, name + ".cfg", env={"OUT": out}, workers=1, heap=heap, timeout=timeout)
+    if r.tagged("GEN") and os.path.exists(out):
+        tmp = cdata + ".tmp%d" % os.getpid()
+        shutil.copy(out, tmp)
+        os.replace(tmp, cdata)
+        with open(cout + ".tmp%d" % os.getpid(), "w") as f:
+            f.write("\n".join(l for l in r.out.splitlines() if "GEN " in l) + "\n")
+        os.replace(cout + ".tmp%d" % os.getpid(), cout)
+    return r
 
 
 def write_module(wd, name, extends, defs, cfg_lines):
